@@ -774,8 +774,9 @@ __strfd_rom(
 	case DT_SPFL_N_WCNT_MON: {
 		unsigned int c = d->c;
 
-		if (!c) {
-			/* don't store the result */
+		if (!c || that.typ == DT_YWD) {
+			/* don't store the result,
+			 * ywd dates keep the week of the year there */
 			c = (unsigned int)dt_get_wcnt_mon(that);
 		}
 		res = ui32tostrrom(buf, bsz, c);
